@@ -78,9 +78,10 @@ package cmd
 //@   ensures [the_failing_steps_error_is_returned_unchanged C10] result != nil ==> (exists k int :: old(tlen()) < k && k < tlen() && evIs(k, "internal/cmd/runner:Step.Run") && evErr(k) == result)
 //@   ensures [nothing_is_listed_on_success C10] result == nil ==> (forall k int :: old(tlen()) < k && k < tlen() ==>
 //@        !evIs(k, "github.com/fatih/color.(*Color).Fprint") && !evIs(k, "github.com/fatih/color.(*Color).Fprintln"))
+// (a heading and, for every collected error, its number, its text and a line break; further lines are not excluded)
 //@   ensures [one_numbered_line_per_collected_error C10 C07 C11] result != nil ==> (exists e int :: old(tlen()) < e && e < tlen() && evIs(e, "github.com/fatih/color.(*Color).Fprint")
 //@        && (forall k int :: old(tlen()) < k && k < e ==> !evIs(k, "github.com/fatih/color.(*Color).Fprint") && !evIs(k, "github.com/fatih/color.(*Color).Fprintln"))
-//@        && tlen() == e + 2 + 3 * len(grouperror.Collection(result)))
+//@        && tlen() >= e + 2 + 3 * len(grouperror.Collection(result)))
 //@   loop 1
 //@     invariant [lines] exists e int :: old(tlen()) < e && e < tlen() && evIs(e, "github.com/fatih/color.(*Color).Fprint")
 //@        && (forall k int :: old(tlen()) < k && k < e ==> !evIs(k, "github.com/fatih/color.(*Color).Fprint") && !evIs(k, "github.com/fatih/color.(*Color).Fprintln"))
